@@ -7,7 +7,7 @@ import re
 from .. import jmodel as J
 from ..eqmodel import eq_disjuncts, hash_paths, attrs_read
 from ..pymodel import package
-from ..valueflow import Flow, as_map, match, V, show, simp, walk, acc_comp, expand_dict_loops
+from ..valueflow import Flow, as_map, match, V, show, simp, subst, walk, acc_comp, expand_dict_loops
 
 EXPLANATION = (
     "R1 every character that can reach Species.alias / an element macro suffix (characters of the default element and pseudo-element symbols, "
@@ -66,6 +66,32 @@ def check(ctx):
     # computed from (shared with C14.R6) -- a stale view gives a species no slot, or a slot to a species that is gone
     from .c14 import _r6 as live_views
     ctx.absorb(lambda sub: live_views(sub, package(sub.tree)), "R12", only=lambda o: any(k in o.key for k in ("Network.species:", "Network.elements:")) and o.outcome != "MISSING")
+    _stable_keys(ctx)
+
+
+def _stable_keys(ctx):
+    """The keys of template constructs carry the template line (`file:cfg:line N:what`).  A construct listed in known_findings.json
+    is the same construct after lines were inserted above it: among the violations that differ from a listed key only in the line
+    number, the k-th (in line order) is the k-th listed one and takes its key; further ones keep their own key and are reported."""
+    from ..core import load_known
+    strip = lambda k: re.sub(r":line \d+:", ":line *:", k)
+    lineno = lambda k: int(re.search(r":line (\d+):", k).group(1))
+    listed = {}
+    for e in load_known():
+        if e.get("property") == "C09" and e.get("status") == "known" and re.search(r":line \d+:", e.get("key", "")):
+            listed.setdefault(strip(e["key"]), []).append(e["key"])
+    if not listed:
+        return
+    groups = {}
+    for o in ctx.obs:
+        if o.outcome == "VIOLATION" and re.search(r":line \d+:", o.key) and strip(o.fkey) in listed:
+            groups.setdefault(strip(o.fkey), []).append(o)
+    for sk, obs in groups.items():
+        keys = sorted(listed[sk], key=lineno)
+        if all(o.fkey in keys for o in obs):
+            continue
+        for o, k in zip(sorted(obs, key=lambda o: o.line), keys):
+            o.key = k.split("|", 1)[1]
 
 
 # ------------------------------------------------------------------ the alias rule (R6 anchor)
@@ -124,7 +150,8 @@ def _concat_parts(v):
 def _alias_rule(ctx, pkg):
     fn = pkg.method("Species", "alias")
     ctx.saw(SP, "Species.alias")
-    fl = Flow(fn, SP, resolver=lambda name: pkg.resolve("Species", name)[1])
+    # the alias may be assembled by helper methods (also ones that loop: the element-case replacement): what they return is followed
+    fl = Flow(fn, SP, resolver=lambda name: pkg.resolve("Species", name)[1], inline_loops=True)
     st = [f for f in fl.facts if f.kind == "attrstore" and f.target == "_alias"]
     out = {"ok": False, "sanitises": False, "line": fn.lineno}
     if not st:
@@ -158,6 +185,11 @@ def _alias_rule(ctx, pkg):
         parts = list(v[3])
     elif v[0] == "fstr" or (v[0] == "binop" and v[1] == "Add"):
         parts = [p[1] if p[0] == "fmt" else p for p in _concat_parts(v)]
+    elif v[0] == "join" and v[1] == ("const", "") and v[2][0] in ("list", "tuple") and not any(e[0] == "star" for e in v[2][1]):
+        parts = list(v[2][1])                       # "".join([a, b, c])
+    elif v[0] == "binop" and v[1] == "Mod" and v[2][0] == "const" and isinstance(v[2][1], str) and re.fullmatch(r"(%s)+", v[2][1]) \
+            and v[3][0] == "tuple" and len(v[3][1]) == v[2][1].count("%s"):
+        parts = list(v[3][1])                       # "%s%s%s" % (a, b, c)
     if not parts or len(parts) < 3:
         ctx.unrec("R6", "Species.alias", (SP, st[0].line), f"alias is not <phase><basename><charge suffix>: {show(v)[:100]}")
         return out
@@ -178,7 +210,16 @@ def _alias_rule(ctx, pkg):
             ok_suffix = False
             witness = f"charge {c:+d}: suffix {got!r}, convention {want!r}"
     suffix = suffix_parts[0] if len(suffix_parts) == 1 else ("tuple", tuple(suffix_parts))
-    ctx.check(phase == want_phase, "R6", "Species.alias:phase marker", (SP, st[0].line), "ice species are marked with the prefix 'G'", expected="'G' if self.is_surface else ''", found=show(phase))
+    # the phase marker, evaluated for an ice and a gas species (whatever the spelling: conditional expression, helper with a guard
+    # clause, "G" * flag, ("", "G")[flag])
+    surf = ("attr", SELF, "is_surface")
+    try:
+        marks = tuple(str(fold(phase, {surf: flag}, fl)) for flag in (True, False))
+    except FoldError as ex:
+        ctx.unrec("R6", "Species.alias:phase marker", (SP, st[0].line), f"the phase marker is not a function of is_surface alone: {ex}")
+        return out
+    want_phase = phase if marks == ("G", "") else want_phase
+    ctx.check(marks == ("G", ""), "R6", "Species.alias:phase marker", (SP, st[0].line), "ice species are marked with the prefix 'G'", expected="'G' if self.is_surface else ''", found=show(phase))
     ctx.check(ok_suffix, "R6", "Species.alias:charge suffix", (SP, st[0].line),
               "the charge is encoded injectively: 'I' * (charge + 1) for charge >= 0, 'M' * |charge| otherwise (X- and X-- get different identifiers)" if ok_suffix else
               f"the charge suffix is not the injective I/M run ({witness}): species differing only in charge share an identifier",
@@ -192,6 +233,49 @@ def _alias_rule(ctx, pkg):
 
 class FoldError(Exception):
     pass
+
+
+def class_table(pkg, cname, attr):
+    """The list a class-level table holds, wherever its entries are written: a literal in the class body, a module-level constant of
+    the class's file (bound once) it names, a concatenation / list(..) / tuple(..) / sorted-free combination of such.  Raises
+    AnalysisError (UNRECOGNISED) when the table is built in any other way, MISSING when it vanished."""
+    from ..core import AnalysisError, MISSING
+    ci = pkg.cls(cname)
+    owner, node = pkg.resolve_attr(cname, attr)
+    if node is None:
+        raise AnalysisError(f"class-level table {cname}.{attr} vanished", (ci.file, ci.node.lineno), MISSING)
+    mod = pkg.modules[pkg.classes[owner].file]
+
+    def once(name):
+        vals = [st.value for st in mod.body if isinstance(st, (ast.Assign, ast.AnnAssign)) and st.value is not None
+                for t in (st.targets if isinstance(st, ast.Assign) else [st.target]) if isinstance(t, ast.Name) and t.id == name]
+        return vals[0] if len(vals) == 1 else None
+
+    def ev(e, depth=0):
+        if depth > 6 or e is None:
+            raise ValueError
+        try:
+            return list(ast.literal_eval(e)) if isinstance(e, (ast.List, ast.Tuple)) else ast.literal_eval(e)
+        except Exception:
+            pass
+        if isinstance(e, (ast.List, ast.Tuple)):
+            out = []
+            for x in e.elts:
+                out += ev(x.value, depth + 1) if isinstance(x, ast.Starred) else [ev(x, depth + 1)]
+            return out
+        if isinstance(e, ast.Name):
+            return ev(pkg.classes[owner].attrs.get(e.id) or once(e.id), depth + 1)
+        if isinstance(e, ast.Attribute) and isinstance(e.value, ast.Name) and e.value.id in (cname, owner):
+            return ev(pkg.resolve_attr(cname, e.attr)[1], depth + 1)
+        if isinstance(e, ast.BinOp) and isinstance(e.op, ast.Add):
+            return list(ev(e.left, depth + 1)) + list(ev(e.right, depth + 1))
+        if isinstance(e, ast.Call) and isinstance(e.func, ast.Name) and e.func.id in ("list", "tuple") and len(e.args) == 1 and not e.keywords:
+            return list(ev(e.args[0], depth + 1))
+        raise ValueError
+    try:
+        return list(ev(node))
+    except (ValueError, TypeError):
+        raise AnalysisError(f"the class-level table {cname}.{attr} is not a literal (nor built from literal constants): {ast.unparse(node)[:80]}", (ci.file, getattr(node, "lineno", 0)))
 
 
 def fold(v, env, flow=None):
@@ -218,6 +302,18 @@ def fold(v, env, flow=None):
         return {"Lt": a < b, "LtE": a <= b, "Gt": a > b, "GtE": a >= b, "Eq": a == b, "NotEq": a != b}[v[1][0]]
     if k in ("ifexp", "phi"):        # phi: the two returns of an inlined helper `if c: return a` / `return b`
         return fold(v[2], env, flow) if fold(v[1], env, flow) else fold(v[3], env, flow)
+    if k == "sub" and v[1][0] in ("tuple", "list") and not any(e[0] == "star" for e in v[1][1]):
+        i = fold(v[2], env, flow)
+        if isinstance(i, (int, bool)) and -len(v[1][1]) <= int(i) < len(v[1][1]):
+            return fold(v[1][1][int(i)], env, flow)
+        raise FoldError(f"index out of range in {show(v)[:60]}")
+    if k == "bool":
+        r = None
+        for x in v[2]:
+            r = fold(x, env, flow)
+            if (v[1] == "And" and not r) or (v[1] == "Or" and r):
+                return r
+        return r
     if k == "call" and v[1] == ("global", "abs") and len(v[2]) == 1:
         return abs(fold(v[2][0], env, flow))
     if k == "call" and v[1] in (("global", "max"), ("global", "min")):
@@ -251,8 +347,8 @@ def _unescape(pat):
 
 def _r1(ctx, pkg, rule):
     sp = pkg.cls("Species")
-    elems = ast.literal_eval(sp.attrs["default_elements"])
-    pseudo = ast.literal_eval(sp.attrs["default_pseudoelements"])
+    elems = class_table(pkg, "Species", "default_elements")
+    pseudo = class_table(pkg, "Species", "default_pseudoelements")
     ctx.floor("R1", "default symbols", len(elems) + len(pseudo), 30)
     bad = {}
     for s in elems + pseudo:
@@ -282,7 +378,7 @@ def _r2(ctx, pkg):
     # what the two properties compute may sit in helper methods they call
     bsrc = "\n".join(ast.unparse(f) for f in method_closure(pkg, "Species", bfn))
     asrc = "\n".join(ast.unparse(f) for f in method_closure(pkg, "Species", afn))
-    disj, _ = eq_disjuncts(eqf)
+    disj, _ = eq_disjuncts(eqf, resolve=lambda name: pkg.resolve("Species", name)[1])
     ice = [d for d in disj if ("both", "is_surface") in d]
     compared = {l[1] for d in ice for l in d if l[0] == "eq"}
     stripped = {"surface_group": "_surface_group" in bsrc or "surface_group" in bsrc, "charge": "charge" in bsrc}
@@ -312,7 +408,7 @@ def _r3(ctx, pkg):
         ctx.ok("R3", "symbol tables", (SP, pfn.lineno), "the symbol tables are no longer used both as patterns and as literals")
         return
     for tab in ("default_elements", "default_pseudoelements"):
-        for s in ast.literal_eval(sp.attrs[tab]):
+        for s in class_table(pkg, "Species", tab):
             lit = _unescape(s)
             ok = lit == s
             ctx.check(ok, "R3", f"{tab}:{s!r}", (SP, sp.node.lineno),
@@ -326,6 +422,14 @@ def _r3(ctx, pkg):
 
 def _first_key(v):
     return ("filter", "first", ("call", ("attr", ("attr", v, "element_count"), "keys"), (), ()), (), ())
+
+
+def _r4_items(ctx, rel, cfg):
+    """the template as R4 reads it: includes / macros / configuration tests resolved, and a loop over `S | map(attribute="alias")`
+    read as the loop over S it is (its variable being `x.alias`) -- which sequence an index is paired with is what matters"""
+    # `{% set %}` names are replaced by what they stand for first (also in loop iterables: `{% set members = network.species %}
+    # {% for s in members %}` iterates network.species)
+    return J.unmap_loops(J.propagate_sets(J.flatten(ctx.tree, rel, cfg)))
 
 
 def _jsubst(e, sets):
@@ -376,9 +480,23 @@ def _loop_stream(loop):
     return [x for x, _ in _stream(loop[3]) if x[0] in ("text", "out")]
 
 
+def _plain(e):
+    """the value an output prints, without formatting that does not change the text of an identifier / an integer: `x | int`,
+    `x | string`, `x | trim`, `"%d" | format(x)`, `"{}".format(x)`"""
+    while True:
+        if e[0] == "filter" and e[1] in ("int", "string", "trim") and not e[3] and not e[4]:
+            e = e[2]
+        elif e[0] == "filter" and e[1] == "format" and e[2][0] == "const" and e[2][1] in ("%d", "%s", "%i") and len(e[3]) == 1 and not e[4]:
+            e = e[3][0]
+        elif e[0] == "call" and e[1][0] == "attr" and e[1][2] == "format" and e[1][1][0] == "const" and e[1][1][1] in ("{}", "{0}", "{:d}", "{0:d}") and len(e[2]) == 1 and not e[3]:
+            e = e[2][0]
+        else:
+            return e
+
+
 def _def_loops(ctx, rel, prefix_re, seq, suffix_of, what, expected):
     """loops `for v in <seq>` whose body writes `<prefix><suffix(v)> <sep> loop.index0` (through {% set %} names or a macro alike)."""
-    items = J.flatten(ctx.tree, rel, {})
+    items = _r4_items(ctx, rel, {})
     ctx.saw(rel)
     hits = []
     for it, st in _stream(items):
@@ -392,11 +510,24 @@ def _def_loops(ctx, rel, prefix_re, seq, suffix_of, what, expected):
         return
     it, body = hits[0]
     outs = [x for x in body if x[0] == "out"]
-    # `for a in S | map(attribute="alias")` visits S in order, one item each: `a` stands for `v.alias` of the element v of S;
-    # the index is compared in canonical form (jmodel.canon: `loop.index - 1` is `loop.index0`)
-    base, elt = J.elementwise(it[2], it[1]) if it[1][0] == "name" else (it[2], it[1])
-    outs = [("out", J.canon(J.subst_names(o[1], {it[1][1]: elt}) if elt != it[1] else o[1])) + tuple(o[2:]) for o in outs]
-    ok = base == seq and it[7] is None and len(outs) == 2 and outs[0][1] == J.canon(suffix_of(it[1])) and outs[1][1] == IDX0
+    outs = [("out", _plain(x[1])) + tuple(x[2:]) for x in outs]
+    ok = it[2] == seq and it[7] is None and len(outs) == 2 and outs[0][1] == suffix_of(it[1]) and outs[1][1] == IDX0
+    if not ok:
+        # VIOLATION only for a pairing that is understood and wrong: the right sequence filtered / re-ordered, another attribute of
+        # the loop variable, a position computed from the loop counters alone.  Anything else (a counter kept in a namespace, a
+        # sequence of unknown origin) is not understood.
+        wrong, unknown = [], []
+        if not (it[2] == seq and it[7] is None):
+            (wrong if J.unfilter(it[2])[0] == seq else unknown).append(f"iterates {J.show(it[2])}")
+        if not (outs and outs[0][1] == suffix_of(it[1])):
+            # another attribute of the loop variable, or an item picked by position out of the right sequence filtered / re-ordered
+            resorted = bool(outs) and any(isinstance(x, tuple) and len(x) == 3 and x[0] == "item" and x[1] != seq and J.unfilter(x[1])[0] == seq for x in _walk(outs[0][1]))
+            (wrong if outs and (resorted or J.names_of(outs[0][1]) <= set(_target_names(it[1]))) else unknown).append("suffix " + (J.show(outs[0][1]) if outs else "missing"))
+        if not (len(outs) == 2 and outs[1][1] == IDX0):
+            (wrong if len(outs) == 2 and J.names_of(outs[1][1]) <= {"loop"} else unknown).append("position " + " ".join(J.show(o[1]) for o in outs[1:]))
+        if unknown and not wrong:
+            ctx.unrec("R4", key, (rel, it[5]), f"the loop defining {expected} is not understood: {'; '.join(unknown)}")
+            return
     ctx.check(ok, "R4", key, (rel, it[5]),
               f"{expected} is paired with loop.index0 over the unfiltered {J.show(seq)}",
               expected=f"for v in {J.show(seq)}: {expected.split('<')[0]}{{{{ {J.show(suffix_of(('name', 'v')))} }}}} {{{{ loop.index0 }}}}",
@@ -411,7 +542,7 @@ def _r4_defs(ctx, pkg):
         _def_loops(ctx, rel, r"IDX_\x00", NSPEC, alias, "IDX_ definitions", "IDX_<alias>")
     # constants.py: lists and counts
     ctx.saw(PYCONST)
-    items = J.flatten(ctx.tree, PYCONST, {})
+    items = _r4_items(ctx, PYCONST, {})
     lists = {"ALL_ELEMENTS": (NELEM, "name"), "ALL_SPECIES": (NSPEC, "name"), "ALL_ALIAS": (NSPEC, "alias")}
     prev = ""
     found = {}
@@ -435,7 +566,7 @@ def _r4_defs(ctx, pkg):
                   f"{name} lists .{attr} over the unfiltered {J.show(seq)} (position n = index n)", found=J.show(it[2]) if it is not None and it[0] == "for" else "missing")
     for name, seq in (("NELEM", NELEM), ("NSPEC", NSPEC)):
         it = found.get(name)
-        ok = it is not None and it[0] == "out" and it[1] == ("filter", "length", seq, (), ())
+        ok = it is not None and it[0] == "out" and J.canon(it[1]) == ("filter", "length", seq, (), ())
         ctx.check(ok, "R5", f"constants.py:{name}", (PYCONST, it[2] if it is not None and it[0] == "out" else 0), f"{name} = {J.show(seq)} | length",
                   found=J.show(it[1]) if it is not None and it[0] == "out" else "missing")
     # render.py summary and NetworkConfiguration
@@ -445,8 +576,40 @@ def _r4_defs(ctx, pkg):
     h = pkg.method("RenderCommand", "handle")
     ctx.saw(RENDER, "RenderCommand.handle")
     stored, counts = {}, []
-    for mname, mfn in rc.methods.items():
-        mfl = Flow(mfn, RENDER)
+    # ... or in a function of the command's module the table was moved to
+    scopes = list(rc.methods.values()) + [g for (f_, _), g in pkg.functions.items() if f_ == RENDER]
+    flows = [Flow(mfn, RENDER) for mfn in scopes]
+
+    def at_call_site(mfl, val):
+        """a value written in terms of the parameters of a helper (`def _summary(species, elements)`) in terms of what its (single)
+        call site in the command passes for them"""
+        g = mfl.func
+        params = [a.arg for a in g.args.args]
+        if not any(isinstance(x, tuple) and len(x) == 2 and x[0] == "param" and x[1] in params and x[1] not in ("self", "cls") for x in walk(val)):
+            return val
+        decs = {ast.unparse(d) for d in g.decorator_list}
+        sites = []
+        for ofl in flows:
+            if ofl is mfl:
+                continue
+            vals = [v for lst in ofl.assigns.values() for v, *_ in lst] + [f.value for f in ofl.facts if f.value is not None] + [f.index for f in ofl.facts if f.index is not None]
+            for v in vals:
+                for x in walk(v):
+                    if isinstance(x, tuple) and len(x) == 4 and x[0] == "call" and x[1] == ("global", g.name) and x not in sites:
+                        sites.append(x)
+                    elif isinstance(x, tuple) and len(x) == 5 and x[0] == "meth" and x[2] == g.name and x[1][0] in ("param", "global") and x not in sites:
+                        sites.append(x)
+        if len(sites) != 1:
+            return val
+        c = sites[0]
+        args, kws = (c[2], c[3]) if c[0] == "call" else (c[3], c[4])
+        ps = params if (c[0] == "call" or "staticmethod" in decs) else params[1:]
+        if len(args) > len(ps) or any(a[0] == "star" for a in args) or any(k not in ps for k, _ in kws):
+            return val
+        bind = {("param", p_): a for p_, a in zip(ps, args)}
+        bind.update({("param", k): a for k, a in kws})
+        return simp(subst(val, bind))
+    for mfl in flows:
         for f in mfl.facts:
             if f.kind != "store" or f.index is None:
                 continue
@@ -457,6 +620,19 @@ def _r4_defs(ctx, pkg):
                     counts.append((idx[1], f, val))
                 elif idx[0] != "const" and any(isinstance(x, tuple) and x[:1] == ("const",) and isinstance(x[1], str) and x[1].startswith(("list_of_", "num_of_")) for x in walk(idx)):
                     ctx.unrec("R4", f"render.py summary:{show(idx)[:40]}", (RENDER, f.line), "a summary key that is not a literal (nor a literal-table loop)")
+        # the table written as a dict display (`summary = {"num_of_species": len(..), "list_of_species": [..], ..}`, `.update({..})`)
+        seen_d = set()
+        for v, ln in [(v, ln) for lst in mfl.assigns.values() for v, _, _, ln, _ in lst] + [(f.value, f.line) for f in mfl.facts if f.value is not None]:
+            for x in walk(v):
+                if isinstance(x, tuple) and len(x) == 2 and x[0] == "dict" and x not in seen_d and x[1] and all(len(e) == 2 for e in x[1]):
+                    seen_d.add(x)
+                    for k_, val in x[1]:
+                        if k_[0] == "const" and isinstance(k_[1], str):
+                            fake = type("F", (), {"line": ln})()
+                            if k_[1].startswith("list_of_") and k_[1] not in stored:
+                                stored[k_[1]] = (mfl, fake, val)
+                            elif k_[1] in ("num_of_elements", "num_of_species") and not any(c[0] == k_[1] for c in counts):
+                                counts.append((k_[1], fake, val))
     for nm, (skey, attr, fld) in {"all_elements": ("list_of_elements", "elements", "name"), "all_species": ("list_of_species", "species", "name"),
                                   "all_alias": ("list_of_species_alias", "species", "alias")}.items():
         key = f"render.py summary:{nm}"
@@ -472,8 +648,21 @@ def _r4_defs(ctx, pkg):
                 ctx.unrec("R4", key, (RENDER, sf.line), f"the list `{val[1]}` is accumulated in a way that is not understood (not one append in one loop)")
                 continue
             val = comp
+        val = at_call_site(mfl, val)
         m = as_map(val)
-        if not m:
+        if m and m[2][0] != "attr":
+            # the right sequence re-ordered / de-duplicated / sliced is understood (and wrong: positions no longer agree)
+            core = m[2]
+            while (core[0] == "call" and core[1] in (("global", "sorted"), ("global", "reversed"), ("global", "set"), ("global", "frozenset")) and core[2]) or \
+                    (core[0] == "sub" and core[2][0] == "slice"):
+                core = core[2][0] if core[0] == "call" else core[1]
+            if core != m[2] and core[0] == "attr" and core[2] == attr:
+                ctx.bad("R4", key, (RENDER, sf.line), f"{nm} is built from net.{attr} re-ordered / filtered ({show(m[2])[:80]}): entry n is no longer the species with index n",
+                        expected=f"[x.{fld} for x in net.{attr}]", found=show(val)[:120])
+                continue
+        if not m or m[2][0] not in ("attr",):
+            # not a map over an attribute of the network (the result of a call that could not be followed, a parameter with several
+            # call sites): where the entries come from is not known
             ctx.unrec("R4", key, (RENDER, sf.line), f"summary[{skey!r}] is not a list built from a network sequence: {show(val)[:100]}")
             continue
         bv, body, base, ifs = m
@@ -483,7 +672,14 @@ def _r4_defs(ctx, pkg):
     for name, f, v in counts:
         attr = "elements" if "elements" in name else "species"
         v = simp(v)
-        ok = v[0] == "call" and v[1] == ("global", "len") and len(v[2]) == 1 and v[2][0][0] == "attr" and v[2][0][2] == attr
+        owner = next((fl_ for fl_ in flows if any(f_ is f for f_ in fl_.facts)), None)
+        if owner is not None:
+            v = at_call_site(owner, v)
+        ok = False
+        if v[0] == "call" and v[1] == ("global", "len") and len(v[2]) == 1 and not v[3]:
+            # the length of the sequence itself, or of a list with one entry per member of it (unfiltered, one-to-one)
+            m = as_map(v[2][0])
+            ok = bool(m) and not m[3] and m[2][0] == "attr" and m[2][2] == attr and m[2][1][0] != "const"
         ctx.check(ok, "R5", f"render.py summary:{name}", (RENDER, f.line), f"{name} = len(net.{attr})", found=show(v)[:60])
     ctx.floor("R5", "render.py summary counts", len(counts), 2, (RENDER, h.lineno))
     ci = pkg.cls("NetworkConfiguration")
@@ -495,12 +691,18 @@ def _r4_defs(ctx, pkg):
     for f in cfl.facts:
         if f.kind == "attrstore" and f.target in want:
             seq, fld = want[f.target]
-            m = as_map(simp(f.value))
+            val = simp(f.value)
+            if val[0] == "acc":
+                val = acc_comp(cfl, val[1]) or val           # a list filled by one append in one loop
+            m = as_map(val)
+            if not m:
+                ctx.unrec("R4", f"NetworkConfiguration:{f.target}", (CONF, f.line), f"{f.target} is not a list built from a network sequence: {show(val)[:100]}")
+                continue
             ok = bool(m) and m[1] == ("attr", m[0], fld) and m[2] == seq and not m[3]
             ctx.check(ok, "R4", f"NetworkConfiguration:{f.target}", (CONF, f.line), f"{f.target} = [x.{fld} for x in network.{seq[2]}]", found=show(simp(f.value))[:80])
     # enzo header
     ctx.saw(ENZOH)
-    items = J.flatten(ctx.tree, ENZOH, {})
+    items = _r4_items(ctx, ENZOH, {})
     loops = [it for it, st in J.walk_items(items) if it[0] == "for"]
     ok_all = len(loops) == 2
     for it in loops:
@@ -529,7 +731,7 @@ def _r4_uses(ctx):
         if rel.endswith("Grid_NaunetWrapper.C.j2"):
             cfgs = [{"device": "cpu"}, {"device": "gpu"}]
         for cfg in cfgs:
-            items = J.flatten(ctx.tree, rel, cfg)
+            items = _r4_items(ctx, rel, cfg)
             prev = ""
             # `{% set elemname = .. %}` / macro parameters: a later {{ elemname }} is that expression; {{ "ELEM_" ~ x }} is text + {{ x }}
             for it, st in _stream(items):
@@ -566,6 +768,11 @@ def _r4_uses(ctx):
                         src = bases[tgs.index(var)] if len(bases) == len(tgs) else bases[0]
                         break
                 want_seq = NELEM if is_elem else NSPEC
+                # where the item comes from is not understood (no enclosing loop binds it, the suffix is not an attribute of a loop
+                # variable): no verdict.  A VIOLATION needs a source that is understood and is another sequence / another suffix.
+                if src is None or var is None or (is_elem and e != _first_key(var) and not (J.names_of(e) <= {var[1]})):
+                    ctx.unrec("R4", key, (rel, it[2]), f"IDX_{'ELEM_' if is_elem else ''}{{{{ {J.show(e)} }}}}: the item the suffix is taken from is not a variable of an enclosing loop over a known sequence")
+                    continue
                 if is_elem:
                     ok = src == want_seq and e == _first_key(var)
                     ctx.check(ok, "R4", key, (rel, it[2]), "the element macro used is the one the header defines for an element of network.elements",
@@ -581,15 +788,13 @@ def _r4_uses(ctx):
     # map-filter spellings: network.species | map(attribute="alias") | map("prefix", "y[IDX_") ...
     n2 = 0
     for rel in rels:
-        items = J.flatten(ctx.tree, rel, {})
+        items = _r4_items(ctx, rel, {})
         sets = {}
 
         def res(e):
-            if isinstance(e, tuple) and len(e) == 2 and e[0] == "name" and e[1] in sets:
-                return res(sets[e[1]])
-            if isinstance(e, tuple):
-                return tuple(res(x) if isinstance(x, tuple) else x for x in e)
-            return e
+            # values are stored resolved: one lookup (a macro parameter bound to the caller's variable of the same name,
+            # `{% set x = x %}`, stays the name)
+            return _jsubst(e, sets)
         for it, st in J.walk_items(items):
             exprs = []
             if it[0] == "set":
@@ -666,8 +871,8 @@ def _r6(ctx, pkg, rule):
     # grackle table
     ep = pkg.cls("EnzoPatch")
     ctx.saw(PATCH, "EnzoPatch")
-    names = ast.literal_eval(ep.attrs["grackle_species_name"])
-    aliases = ast.literal_eval(ep.attrs["grackle_defined_alias"])
+    names = class_table(pkg, "EnzoPatch", "grackle_species_name")
+    aliases = class_table(pkg, "EnzoPatch", "grackle_defined_alias")
     ctx.check(len(names) == len(aliases), "R6", "grackle tables:length", (PATCH, ep.node.lineno), "one alias per grackle species", found=f"{len(names)} vs {len(aliases)}")
     if rule.get("ok"):
         for nm, al in zip(names, aliases):
@@ -796,18 +1001,67 @@ def regex_rewrites(pkg, cname, fn):
 
 # ------------------------------------------------------------------ R7 (shared with C15.R2)
 
+def class_constants(pkg, cname):
+    """{attribute: literal value} for the class-level names of a class (MRO) that are bound once, in the class body, to a literal
+    of immutable kind (str / number / bool / None / tuple of such) and that no statement of the package assigns, augments or
+    deletes as an attribute of anything (`x.NAME = ..`, `setattr(x, "NAME", ..)`)"""
+    cand = {}
+    for c in pkg.mro(cname):
+        ci = pkg.classes.get(c)
+        if ci is None:
+            continue
+        counts = {}
+        for st in ci.node.body:
+            for n in ast.walk(st) if not isinstance(st, (ast.FunctionDef, ast.AsyncFunctionDef, ast.ClassDef)) else []:
+                if isinstance(n, ast.Name) and isinstance(n.ctx, (ast.Store, ast.Del)):
+                    counts[n.id] = counts.get(n.id, 0) + 1
+        for name, node in ci.attrs.items():
+            if name in cand or counts.get(name) != 1:
+                continue
+            try:
+                val = ast.literal_eval(node)
+            except Exception:
+                continue
+
+            def immutable(x):
+                return x is None or isinstance(x, (str, int, float, bool, bytes)) or (isinstance(x, tuple) and all(immutable(y) for y in x))
+            if immutable(val):
+                cand[name] = val
+    if not cand:
+        return {}
+    for f in pkg.files:
+        for n in ast.walk(pkg.modules[f]):
+            if isinstance(n, ast.Attribute) and isinstance(n.ctx, (ast.Store, ast.Del)):
+                cand.pop(n.attr, None)
+            elif isinstance(n, ast.Call) and isinstance(n.func, ast.Name) and n.func.id in ("setattr", "delattr") and len(n.args) >= 2:
+                if isinstance(n.args[1], ast.Constant):
+                    cand.pop(n.args[1].value, None)
+                else:
+                    return {}            # a computed attribute name: anything may be re-bound
+    return cand
+
+
 def hash_contract(ctx, pkg, rule="R7"):
     eqf = pkg.method("Species", "__eq__")
     hf = pkg.method("Species", "__hash__")
     ctx.saw(SP, "Species.__hash__")
-    disj, _ = eq_disjuncts(eqf)
+    disj, _ = eq_disjuncts(eqf, resolve=lambda name: pkg.resolve("Species", name)[1])
     paths = hash_paths(hf, resolve=lambda name: pkg.method("Species", name))
+    # a class-level constant (bound once in the class body to a literal, assigned nowhere in the package) read through self is that
+    # literal, the same for every instance: not an attribute in which two species can differ
+    consts = class_constants(pkg, "Species")
+    paths = [(c, {a for a in reads if a not in consts}, txt) for c, reads, txt in paths]
     # attributes determined by name (derived from the name by parsing)
     for d in disj:
         lits = set(d)
         label = " & ".join(f"{l[0]}:{l[1]}" for l in sorted(d))
         if lits == {("both", "is_electron")}:
             el = [p for p in paths if p[0] == "self.is_electron"]
+            classlevel = {a for c in pkg.mro("Species") if c in pkg.classes for a in pkg.classes[c].attrs}
+            if len(el) == 1 and el[0][1] and el[0][1] <= classlevel:
+                # reads only names bound in the class body, but they are re-bound somewhere: whether they differ between instances is not decided
+                ctx.unrec(rule, f"hash vs eq[{label}]", (SP, hf.lineno), f"the hash of an electron reads class-level names that are not provably constant: {sorted(el[0][1])}")
+                continue
             ctx.check(len(el) == 1 and not el[0][1], rule, f"hash vs eq[{label}]", (SP, hf.lineno), "equal electrons hash to the same constant")
             continue
         forced = {l[1] for l in d if l[0] == "eq"} | {l[1] for l in d if l[0] == "both"}
@@ -929,19 +1183,29 @@ def _r11(ctx, pkg):
         ctx.missing("R11", "EnzoPatch.render", (PATCH, 0), "method vanished")
         return
     ctx.saw(PATCH, "EnzoPatch.render")
-    fl = Flow(fn, PATCH)
-    call = None
-    for lst in fl.assigns.values():
-        for v, *_ in lst:
-            v = simp(v)
-            if v[0] == "meth" and v[2] == "SpeciesGroups":
-                call = v
-    if call is None or len(call[3]) != 7:
+    fl = Flow(fn, PATCH, resolver=class_resolver(pkg, "EnzoPatch"))
+    # by role: the record handed to the templates is the call of the class's SpeciesGroups, wherever it is written (bound to a local
+    # or passed on directly); its fields are taken by NAME (positional arguments follow the declared field order)
+    calls = []
+    vals = [v for lst in fl.assigns.values() for v, *_ in lst] + [f.value for f in fl.facts if f.value is not None]
+    for v in vals:
+        for x in walk(simp(v)):
+            if isinstance(x, tuple) and len(x) == 5 and x[0] == "meth" and x[2] == "SpeciesGroups" and x not in calls:
+                calls.append(x)
+    order = _record_fields(pkg, "EnzoPatch", "SpeciesGroups")
+    fields = None
+    if len(calls) == 1 and order:
+        call = calls[0]
+        if len(call[3]) <= len(order) and not any(a[0] == "star" for a in call[3]) and all(k in order for k, _ in call[4]):
+            fields = dict(zip(order, call[3]))
+            fields.update(dict(call[4]))
+    names = ["intersect_enzo", "intersect_grackle", "diff_enzo", "diff_grackle"]
+    fnames = ["network_int_enzo", "network_int_grackle", "network_diff_enzo", "network_diff_grackle"]
+    if fields is None or any(f_ not in fields for f_ in fnames):
         ctx.unrec("R11", "EnzoPatch.render:SpeciesGroups", (PATCH, fn.lineno), "the SpeciesGroups(..) construction with its seven groups was not found")
         return
     want = [("In", "enzo_defined_species_name"), ("In", "grackle_species_name"), ("NotIn", "enzo_defined_species_name"), ("NotIn", "grackle_species_name")]
-    names = ["intersect_enzo", "intersect_grackle", "diff_enzo", "diff_grackle"]
-    for a, (op, table), nm in zip(call[3][3:], want, names):
+    for a, (op, table), nm in zip([fields[f_] for f_ in fnames], want, names):
         m = as_map(simp(a))
         ok = False
         found = show(simp(a))[:140]
@@ -951,12 +1215,29 @@ def _r11(ctx, pkg):
                 lhs, rhs = ifs[0][2]
                 mr = as_map(rhs)
                 ok = lhs == body and base == ("attr", ("param", "network"), "species") and bool(mr) and mr[1] == ("call", ("global", "Species"), (mr[0],), ()) \
-                    and mr[2] == ("attr", ("global", "EnzoPatch"), table) and not mr[3]
+                    and mr[2] in (("attr", ("global", "EnzoPatch"), table), ("attr", SELF, table), ("attr", ("param", "cls"), table)) and not mr[3]
         ctx.check(ok, "R11", f"EnzoPatch.render:species_{nm}", (PATCH, fn.lineno),
                   f"network species {'in' if op == 'In' else 'not in'} the predefined list, by Species equality" if ok else
                   "the group is not `species (not) in [Species(n) for n in <predefined names>]`: compared by spelling, an electron written E- / E (or any species equal but spelled "
                   "differently) is not recognised as predefined and gets a second field slot",
                   expected=f"[s for s in species_network if s {'in' if op == 'In' else 'not in'} [Species(n) for n in EnzoPatch.{table}]]", found=found)
+
+
+def _record_fields(pkg, cname, rname):
+    """field names, in order, of a record type nested in a class: a (data)class / typing.NamedTuple body with annotated fields, or a
+    class-level `R = namedtuple("R", "a b c" | ["a", "b", "c"])`; None when it is declared in another way"""
+    ci = pkg.classes.get(f"{cname}.{rname}")
+    if ci is not None:
+        out = [st.target.id for st in ci.node.body if isinstance(st, ast.AnnAssign) and isinstance(st.target, ast.Name)]
+        return out or None
+    node = pkg.resolve_attr(cname, rname)[1]
+    if isinstance(node, ast.Call) and ast.unparse(node.func).split(".")[-1] == "namedtuple" and len(node.args) >= 2:
+        try:
+            spec = ast.literal_eval(node.args[1])
+        except Exception:
+            return None
+        return spec.replace(",", " ").split() if isinstance(spec, str) else list(spec)
+    return None
 
 
 def class_resolver(pkg, cname):
@@ -1002,15 +1283,51 @@ def species_order(pkg):
     return fn, fl, out
 
 
+def _is_chain(v):
+    """arguments of itertools.chain(a, b, ..) (imported either way), else None"""
+    if v[0] == "call" and v[1] == ("global", "chain") and not v[3]:
+        return v[2]
+    if v[0] == "meth" and v[1] == ("global", "itertools") and v[2] == "chain" and not v[4]:
+        return v[3]
+    return None
+
+
+def _members_added(x):
+    """the sets whose union holds exactly the elements of the iterable x (an argument of set(..) / .union(..) / a starred entry of
+    a set display): a set is itself; a concatenation / chain of iterables is each of them; list(..) / tuple(..) / sorted(..) of an
+    iterable is that iterable; anything else is the canonical `set(x)`"""
+    if _setness(x) == "set":
+        return union_operands(x)
+    ch = _is_chain(x)
+    if ch is not None:
+        return [o for a in ch for o in _members_added(a)]
+    if x[0] == "binop" and x[1] == "Add":
+        return _members_added(x[2]) + _members_added(x[3])
+    if x[0] == "call" and x[1] in (("global", "list"), ("global", "tuple"), ("global", "sorted")) and len(x[2]) == 1 and not (set(dict(x[3])) - {"key", "reverse"}):
+        return _members_added(x[2][0])
+    if x[0] in ("list", "tuple") and x[1] and all(e[0] == "star" for e in x[1]):
+        return [o for e in x[1] for o in _members_added(e[1])]
+    return [("call", ("global", "set"), (x,), ())]
+
+
 def union_operands(v):
-    """operands of a set union spelled with `|` or .union(..), flattened"""
+    """operands of a set union, flattened and in canonical form (a set as itself, any other iterable X as `set(X)`), whatever the
+    spelling: `a | b`, `a.union(b, c)`, `set().union(a, b)`, `set(chain(a, b))`, `set(list(a) + b)`, `{*a, *b}`"""
     if v[0] == "binop" and v[1] == "BitOr":
         return union_operands(v[2]) + union_operands(v[3])
     if v[0] == "meth" and v[2] == "union" and not v[4]:
         out = union_operands(v[1])
         for a in v[3]:
-            out += union_operands(a)
+            out += _members_added(a)
         return out
+    if v[0] == "call" and v[1] in (("global", "set"), ("global", "frozenset")) and not v[3]:
+        if not v[2]:
+            return []
+        if len(v[2]) == 1:
+            inner = _members_added(v[2][0])
+            return inner if inner != [v] else [v]
+    if v[0] == "set" and v[1] and all(e[0] == "star" for e in v[1]):
+        return [o for e in v[1] for o in _members_added(e[1])]
     return [v]
 
 
@@ -1043,6 +1360,8 @@ def _setness(v):
         return "list"
     if k == "attr" and v[1] == SELF and v[2] == "_required_species":
         return "list"
+    if _is_chain(v) is not None:
+        return "list"           # one iterable after the other: every entry is kept
     return None
 
 
@@ -1164,3 +1483,195 @@ BENIGN = [
     {"name": "loop-var-renamed", "file": MACROS, "old": "{% for spec in network.species %}\n#define IDX_{{ spec.alias }} {{ loop.index0 }}", "new": "{% for sp in network.species %}\n#define IDX_{{ sp.alias }} {{ loop.index0 }}"},
     {"name": "suffix-commuted", "file": SP, "old": '"I" * (self.charge + 1) if self.charge >= 0', "new": '(self.charge + 1) * "I" if self.charge >= 0'},
 ]
+
+# --- spellings accepted since the second hardening wave (each with the defect it must still see) ---------------------------------
+_ALIAS_INLINE = '            basename = self.basename\n            # TODO: The replacement does not guarantee the correctness\n            # e.g. CO could be replaced by Co if Co exists in the known element list\n            replacement = {\n                e.Symbol.upper(): e.Symbol\n                for e in chemistrydata.periodic_table + chemistrydata.isotopes_table\n                if e.Symbol.upper() in self._known_elements\n            }\n            for key, value in replacement.items():\n                basename = basename.replace(key, value)\n            self._alias = "{}{}{}".format(\n                "G" if self.is_surface else "",\n                basename,\n                "I" * (self.charge + 1) if self.charge >= 0 else "M" * abs(self.charge),\n            )\n'
+
+
+def _alias_helper(suffix_neg):
+    return ("    def _default_alias(self):\n        text = self.basename\n        table = {e.Symbol.upper(): e.Symbol for e in chemistrydata.periodic_table + chemistrydata.isotopes_table "
+            "if e.Symbol.upper() in self._known_elements}\n        for upper, symbol in table.items():\n            text = text.replace(upper, symbol)\n"
+            "        q = self.charge\n        tail = \"I\" * (q + 1) if q >= 0 else " + suffix_neg + "\n        return (\"G\" if self.is_surface else \"\") + text + tail\n\n    @alias.setter\n")
+
+
+_SUMMARY_OLD = ("        summary = tomlkit.table()\n        all_elements = [e.name for e in net.elements]\n        all_species = [x.name for x in net.species]\n"
+                "        all_alias = [x.alias for x in net.species]\n")
+_SUMMARY_STORES = ('        summary["num_of_elements"] = len(net.elements)\n        summary["num_of_species"] = len(net.species)\n')
+_SUMMARY_LISTS = ('        summary["list_of_elements"] = all_elements\n        summary["list_of_species"] = all_species\n        summary["list_of_species_alias"] = all_alias\n')
+
+
+def _summary_tables(alias_filter=""):
+    return [
+        {"file": RENDER, "old": "import tomlkit\n", "new": "import itertools\nimport tomlkit\n"},
+        {"file": RENDER, "old": _SUMMARY_OLD, "new": "        summary = tomlkit.table()\n        members = net.species\n        names = {\"list_of_elements\": [e.name for e in net.elements], "
+         "\"list_of_species\": [x.name for x in members], \"list_of_species_alias\": [x.alias for x in members" + alias_filter + "]}\n"
+         "        sizes = {\"num_of_elements\": len(names[\"list_of_elements\"]), \"num_of_species\": len(members)}\n"
+         "        for label, entry in itertools.chain(sizes.items(), names.items()):\n            summary[label] = entry\n"},
+        {"file": RENDER, "old": _SUMMARY_STORES, "new": ""},
+        {"file": RENDER, "old": _SUMMARY_LISTS, "new": ""}]
+
+
+_HASH_OLD = '            hash("Electron")\n            if self.is_electron\n'
+_EQ_GRAIN = ("                or (\n                    self.is_grain\n                    and o.is_grain\n                    and self.grain_group == o.grain_group\n"
+             "                    and self.charge == o.charge\n                )\n")
+
+
+def _eq_helper(with_charge=True):
+    return [{"file": SP, "old": _EQ_GRAIN, "new": "                or self._grain_twin(o)\n"},
+            {"file": SP, "old": "    def __hash__(self) -> int:\n", "new": "    def _grain_twin(self, o):\n        if not (self.is_grain and o.is_grain):\n            return False\n"
+             "        return self.grain_group == o.grain_group" + (" and self.charge == o.charge" if with_charge else "") + "\n\n    def __hash__(self) -> int:\n"}]
+
+
+_SORT_OLD = "        speclist = sorted(speclist, key=lambda x: (len(connection[x]), x))\n\n        return speclist\n"
+MUTANTS += [
+    {"name": "dsu-sort-by-count-only", "file": NETF, "old": _SORT_OLD,
+     "new": "        ranked = sorted(((len(connection[sp]), sp) for sp in speclist), key=lambda t: t[0])\n\n        return [sp for _, sp in ranked]\n", "rules": ["R9"]},
+    {"name": "alias-looping-helper-single-M", "edits": [{"file": SP, "old": _ALIAS_INLINE, "new": "            self._alias = self._default_alias()\n"},
+                                                         {"file": SP, "old": "    @alias.setter\n", "new": _alias_helper('"M"')}], "rules": ["R6"]},
+    {"name": "summary-chained-tables-alias-skips-ice", "edits": _summary_tables(" if not x.is_surface"), "rules": ["R4"]},
+    {"name": "mapped-alias-loop-over-sorted-species", "file": MACROS, "old": "{% for spec in network.species %}\n#define IDX_{{ spec.alias }} {{ loop.index0 }}",
+     "new": '{% for tag in network.species | sort(attribute="name") | map(attribute="alias") %}\n#define IDX_{{ tag }} {{ loop.index - 1 }}', "rules": ["R4"]},
+    {"name": "index-one-based-minus-nothing", "file": PYIDX, "old": "IDX_{{ spec.alias }} = {{ loop.index0 }}", "new": "IDX_{{ spec.alias }} = {{ loop.index - 0 }}", "rules": ["R4"]},
+    {"name": "electron-hash-by-spelling", "file": SP, "old": _HASH_OLD, "new": '            hash(self.name.upper())\n            if self.is_electron\n', "rules": ["R7"]},
+    {"name": "eq-grain-helper-ignores-charge", "edits": _eq_helper(False), "rules": ["R7"]},
+]
+BENIGN += [
+    {"name": "decorate-sort-undecorate", "file": NETF, "old": _SORT_OLD,
+     "new": "        ranked = sorted((len(connection[sp]), sp) for sp in speclist)\n\n        return [sp for _, sp in ranked]\n"},
+    {"name": "decorate-sort-undecorate-by-subscript", "file": NETF, "old": _SORT_OLD,
+     "new": "        ranked = sorted([(len(connection[sp]), sp) for sp in speclist])\n\n        return [pair[-1] for pair in ranked]\n"},
+    {"name": "alias-looping-helper", "edits": [{"file": SP, "old": _ALIAS_INLINE, "new": "            self._alias = self._default_alias()\n"},
+                                                {"file": SP, "old": "    @alias.setter\n", "new": _alias_helper('"M" * abs(q)')}]},
+    {"name": "summary-chained-tables", "edits": _summary_tables()},
+    {"name": "mapped-alias-loop-index-minus-one", "edits": [
+        {"file": MACROS, "old": "{% for spec in network.species %}\n#define IDX_{{ spec.alias }} {{ loop.index0 }}",
+         "new": '{% for tag in network.species | map(attribute="alias") %}\n#define IDX_{{ tag }} {{ loop.index - 1 }}'},
+        {"file": PYCONST, "old": "NSPEC = {{ network.species | length }}", "new": "NSPEC = {{ network.species | count }}"}]},
+    {"name": "electron-hash-key-class-constant", "edits": [
+        {"file": SP, "old": "    _replacement = {}\n", "new": "    _replacement = {}\n    _ELECTRON_KEY = \"Electron\"\n"},
+        {"file": SP, "old": _HASH_OLD, "new": '            hash(self._ELECTRON_KEY)\n            if self.is_electron\n'}]},
+    {"name": "eq-grain-predicate-helper", "edits": _eq_helper(True)},
+]
+_POOL_OLD = "        speclist = sorted(\n            self._reactants | self._products | set(self._required_species)\n        )\n\n        connection = {sp: set() for sp in speclist}\n"
+BENIGN += [
+    {"name": "species-pool-by-set-method", "file": NETF, "old": _POOL_OLD,
+     "new": "        speclist = sorted(set().union(self._reactants, self._products, self._required_species))\n\n        connection = {sp: set() for sp in speclist}\n"},
+    {"name": "species-pool-by-set-display", "file": NETF, "old": _POOL_OLD,
+     "new": "        speclist = sorted({*self._reactants, *self._products, *self._required_species})\n\n        connection = {sp: set() for sp in speclist}\n"},
+]
+MUTANTS += [
+    {"name": "species-pool-chained-list", "file": NETF, "old": _POOL_OLD,
+     "new": "        speclist = sorted(itertools.chain(self._reactants | self._products, self._required_species))\n\n        connection = {sp: set() for sp in speclist}\n", "rules": ["R9"]},
+]
+BENIGN += [
+    {"name": "index-loop-over-positions", "file": MACROS, "old": "{% for spec in network.species %}\n#define IDX_{{ spec.alias }} {{ loop.index0 }}",
+     "new": "{% for slot in range(network.species | length) %}\n#define IDX_{{ network.species[slot].alias }} {{ slot }}"},
+]
+MUTANTS += [
+    {"name": "index-loop-over-positions-one-based", "file": MACROS, "old": "{% for spec in network.species %}\n#define IDX_{{ spec.alias }} {{ loop.index0 }}",
+     "new": "{% for slot in range(network.species | length) %}\n#define IDX_{{ network.species[slot].alias }} {{ slot + 1 }}", "rules": ["R4"]},
+    {"name": "index-loop-over-positions-of-other-sequence", "file": MACROS, "old": "{% for spec in network.species %}\n#define IDX_{{ spec.alias }} {{ loop.index0 }}",
+     "new": "{% for slot in range(network.species | length) %}\n#define IDX_{{ (network.species | sort(attribute='name') | list)[slot].alias }} {{ slot }}", "rules": ["R4"]},
+]
+BENIGN += [
+    {"name": "pseudo-element-table-from-module-constants", "edits": [
+        {"file": SP, "old": '        "c-",\n        "l-",\n        r"\\*",\n        "g",\n    ]\n', "new": '    ] + _ISOMER_MARKS + [r"\\*", "g"]\n'},
+        {"file": SP, "old": "class Species:\n", "new": '_ISOMER_MARKS = ["c-", "l-"]\n\n\nclass Species:\n'}]},
+]
+_GROUPS_CALL = ("        species_group = self.SpeciesGroups(\n            species_enzo,\n            species_grackle,\n            species_network,\n            species_intersect_enzo,\n"
+                "            species_intersect_grackle,\n            species_diff_enzo,\n            species_diff_grackle,\n        )\n")
+_GROUPS_CLASS = ("    @dataclass\n    class SpeciesGroups:\n        enzo: list[Species]\n        grackle: list[Species]\n        network: list[Species]\n        network_int_enzo: list[Species]\n"
+                 "        network_int_grackle: list[Species]\n        network_diff_enzo: list[Species]\n        network_diff_grackle: list[Species]\n")
+BENIGN += [
+    {"name": "enzo-groups-by-keyword-namedtuple", "edits": [
+        {"file": PATCH, "old": _GROUPS_CLASS, "new": '    SpeciesGroups = namedtuple(\n        "SpeciesGroups",\n        "enzo grackle network network_int_enzo network_int_grackle network_diff_enzo network_diff_grackle",\n    )\n'},
+        {"file": PATCH, "old": _GROUPS_CALL, "new": "        species_group = self.SpeciesGroups(\n            network=species_network,\n            enzo=species_enzo,\n            grackle=species_grackle,\n"
+         "            network_diff_enzo=species_diff_enzo,\n            network_diff_grackle=species_diff_grackle,\n            network_int_enzo=species_intersect_enzo,\n            network_int_grackle=species_intersect_grackle,\n        )\n"}]},
+]
+MUTANTS += [
+    {"name": "enzo-groups-keyword-swapped", "file": PATCH, "old": _GROUPS_CALL, "new": "        species_group = self.SpeciesGroups(\n            network=species_network,\n            enzo=species_enzo,\n            grackle=species_grackle,\n"
+     "            network_diff_enzo=species_intersect_enzo,\n            network_diff_grackle=species_diff_grackle,\n            network_int_enzo=species_diff_enzo,\n            network_int_grackle=species_intersect_grackle,\n        )\n", "rules": ["R11"]},
+]
+_SUMMARY_ALL = ('        summary["num_of_elements"] = len(net.elements)\n        summary["num_of_species"] = len(net.species)\n        summary["num_of_grains"] = len(net.grains)\n'
+                '        summary["num_of_gas_species"] = len(gas_species)\n        summary["num_of_ice_species"] = len(ice_species)\n        summary["num_of_grain_species"] = len(grain_species)\n'
+                '        summary["num_of_reactions"] = len(net.reactions)\n        summary["list_of_elements"] = all_elements\n        summary["list_of_species"] = all_species\n'
+                '        summary["list_of_species_alias"] = all_alias\n        summary["list_of_gas_species"] = gas_species\n        summary["list_of_ice_species"] = ice_species\n'
+                '        summary["list_of_grain_species"] = grain_species\n')
+
+
+def _summary_display(alias="all_alias", nspec="len(net.species)"):
+    return {"file": RENDER, "old": _SUMMARY_ALL, "new": '        summary.update({\n            "num_of_elements": len(all_elements),\n            "num_of_species": ' + nspec + ',\n            "num_of_grains": len(net.grains),\n'
+            '            "num_of_gas_species": len(gas_species),\n            "num_of_ice_species": len(ice_species),\n            "num_of_grain_species": len(grain_species),\n'
+            '            "num_of_reactions": len(net.reactions),\n            "list_of_elements": all_elements,\n            "list_of_species": all_species,\n'
+            '            "list_of_species_alias": ' + alias + ',\n            "list_of_gas_species": gas_species,\n            "list_of_ice_species": ice_species,\n'
+            '            "list_of_grain_species": grain_species,\n        })\n'}
+
+
+BENIGN += [dict(_summary_display(), name="summary-as-dict-display")]
+MUTANTS += [dict(_summary_display(alias="[x.alias for x in net.species if not x.is_surface]"), name="summary-dict-display-alias-skips-ice", rules=["R4"]),
+            dict(_summary_display(nspec="len(gas_species)"), name="summary-dict-display-counts-gas-only", rules=["R5"])]
+BENIGN += [
+    {"name": "phase-marker-by-multiplication", "file": SP, "old": '                "G" if self.is_surface else "",\n', "new": '                "G" * bool(self.is_surface),\n'},
+    {"name": "charge-suffix-by-table-lookup", "file": SP, "old": '                "I" * (self.charge + 1) if self.charge >= 0 else "M" * abs(self.charge),\n',
+     "new": '                ("M" * abs(self.charge), "I" * (self.charge + 1))[self.charge >= 0],\n'},
+]
+MUTANTS += [
+    {"name": "phase-marker-inverted", "file": SP, "old": '                "G" if self.is_surface else "",\n', "new": '                "G" * (not self.is_surface),\n', "rules": ["R6"]},
+]
+BENIGN += [
+    {"name": "species-sorted-in-place", "file": NETF, "old": _SORT_OLD, "new": "        speclist.sort(key=lambda x: (len(connection[x]), x))\n\n        return speclist\n"},
+]
+MUTANTS += [
+    {"name": "species-sorted-in-place-by-count-only", "file": NETF, "old": _SORT_OLD, "new": "        speclist.sort(key=lambda x: len(connection[x]))\n\n        return speclist\n", "rules": ["R9"]},
+]
+_WRAP_HEAD = "/***********************************************************************\n/\n/  GRID CLASS (WRAP THE NAUNET CHEMISTRY SOLVER)\n"
+BENIGN += [
+    {"name": "wrapper-lines-shifted", "file": WRAP, "old": _WRAP_HEAD, "new": '{% set wrapper_note = "the known findings below are the same constructs, further down" %}\n{% set wrapper_rev = 2 %}\n' + _WRAP_HEAD},
+]
+MUTANTS += [
+    {"name": "wrapper-shifted-and-one-more-overridden-alias-use", "edits": [
+        {"file": WRAP, "old": _WRAP_HEAD, "new": '{% set wrapper_note = "shifted" %}\n' + _WRAP_HEAD},
+        {"file": WRAP, "old": "        data[sidx].Tgas = temperature[igrid];\n\n        {% for s, n in zip(species.network, specnum) -%}\n",
+         "new": "        data[sidx].Tgas = temperature[igrid];\n\n        {% for s in species.network -%}\n          y[sidx + IDX_{{ s.alias }}] = 0.0;\n        {% endfor %}\n        {% for s, n in zip(species.network, specnum) -%}\n"}], "rules": ["R4"]},
+]
+BENIGN += [{"name": "count-of-listed-names", "file": PYCONST, "old": "NSPEC = {{ network.species | length }}", "new": 'NSPEC = {{ network.species | map(attribute="name") | list | count }}'}]
+MUTANTS += [{"name": "count-of-gas-species", "file": PYCONST, "old": "NSPEC = {{ network.species | length }}", "new": 'NSPEC = {{ network.species | rejectattr("is_surface") | list | count }}', "rules": ["R5"]}]
+BENIGN += [{"name": "index-loop-over-a-named-sequence", "file": MACROS, "old": "{% for spec in network.species %}\n#define IDX_{{ spec.alias }} {{ loop.index0 }}",
+            "new": '{% set members = network.species %}\n{% for spec in members %}\n#define IDX_{{ spec.alias }} {{ loop.index0 }}'}]
+MUTANTS += [{"name": "index-loop-over-a-named-filtered-sequence", "file": MACROS, "old": "{% for spec in network.species %}\n#define IDX_{{ spec.alias }} {{ loop.index0 }}",
+             "new": '{% set members = network.species | rejectattr("is_grain") | list %}\n{% for spec in members %}\n#define IDX_{{ spec.alias }} {{ loop.index0 }}', "rules": ["R4"]}]
+_FORMAT_OLD = ('            self._alias = "{}{}{}".format(\n                "G" if self.is_surface else "",\n                basename,\n'
+               '                "I" * (self.charge + 1) if self.charge >= 0 else "M" * abs(self.charge),\n            )\n')
+BENIGN += [
+    {"name": "alias-joined-from-a-list", "file": SP, "old": _FORMAT_OLD, "new": '            self._alias = "".join([\n                "G" if self.is_surface else "",\n                basename,\n'
+     '                "I" * (self.charge + 1) if self.charge >= 0 else "M" * abs(self.charge),\n            ])\n'},
+    {"name": "alias-by-percent-formatting", "file": SP, "old": _FORMAT_OLD, "new": '            self._alias = "%s%s%s" % (\n                "G" if self.is_surface else "",\n                basename,\n'
+     '                "I" * (self.charge + 1) if self.charge >= 0 else "M" * abs(self.charge),\n            )\n'},
+]
+MUTANTS += [
+    {"name": "alias-joined-without-charge-run", "file": SP, "old": _FORMAT_OLD, "new": '            self._alias = "".join([\n                "G" if self.is_surface else "",\n                basename,\n'
+     '                "I" if self.charge >= 0 else "M" * abs(self.charge),\n            ])\n', "rules": ["R6"]},
+]
+BENIGN += [{"name": "summary-lists-by-map-attrgetter", "edits": [
+    {"file": RENDER, "old": "import tomlkit\n", "new": "import operator\nimport tomlkit\n"},
+    {"file": RENDER, "old": "        all_species = [x.name for x in net.species]\n        all_alias = [x.alias for x in net.species]\n",
+     "new": '        all_species = list(map(operator.attrgetter("name"), net.species))\n        all_alias = list(map(lambda sp: sp.alias, net.species))\n'}]}]
+MUTANTS += [{"name": "summary-alias-by-map-over-filter", "file": RENDER, "old": "        all_alias = [x.alias for x in net.species]\n",
+             "new": '        all_alias = list(map(lambda sp: sp.alias, filter(lambda sp: not sp.is_surface, net.species)))\n', "rules": ["R4"]}]
+
+
+def _summary_by_parameters(alias_iter="members"):
+    return [
+        {"file": RENDER, "old": _SUMMARY_OLD, "new": "        summary = _summary_of(net.species, net.elements)\n        all_elements = summary[\"list_of_elements\"]\n        all_species = summary[\"list_of_species\"]\n        all_alias = summary[\"list_of_species_alias\"]\n"},
+        {"file": RENDER, "old": _SUMMARY_STORES, "new": ""},
+        {"file": RENDER, "old": _SUMMARY_LISTS, "new": ""},
+        {"file": RENDER, "old": "class RenderCommand(Command):\n", "new": "def _summary_of(members, atoms):\n    table = tomlkit.table()\n    table[\"num_of_elements\"] = len(atoms)\n    table[\"num_of_species\"] = len(members)\n"
+         "    table[\"list_of_elements\"] = [a.name for a in atoms]\n    table[\"list_of_species\"] = [m.name for m in members]\n    table[\"list_of_species_alias\"] = [m.alias for m in " + alias_iter + "]\n    return table\n\n\nclass RenderCommand(Command):\n"}]
+
+
+BENIGN += [{"name": "summary-helper-takes-the-sequences", "edits": _summary_by_parameters()}]
+MUTANTS += [{"name": "summary-helper-alias-from-sorted-members", "edits": _summary_by_parameters("sorted(members)"), "rules": ["R4"]}]
+BENIGN += [{"name": "index-printed-through-format", "edits": [
+    {"file": MACROS, "old": "#define IDX_{{ spec.alias }} {{ loop.index0 }}", "new": '#define IDX_{{ spec.alias }} {{ "%d" | format(loop.length - loop.revindex) }}'},
+    {"file": PYIDX, "old": "IDX_{{ spec.alias }} = {{ loop.index0 }}", "new": 'IDX_{{ spec.alias }} = {{ "{}".format(loop.index0) }}'}]}]
+MUTANTS += [{"name": "index-printed-through-format-one-based", "file": MACROS, "old": "#define IDX_{{ spec.alias }} {{ loop.index0 }}", "new": '#define IDX_{{ spec.alias }} {{ "%d" | format(loop.index) }}', "rules": ["R4"]}]
